@@ -1,4 +1,4 @@
-import DL.Lemmas.CFSound3
+import DL.Lemmas.CFSound3b
 
 /-! Soundness invariant: loops. -/
 namespace DL.CF
@@ -9,6 +9,7 @@ structure TailOK (live loopN : Bool) (bp : Nat) (extra : List Nat) (b' c : A) : 
   ur : ∀ q, c.info.ur q = b'.info.ur q
   fbk : c.sc.foundBreak = b'.sc.foundBreak
   fc : c.sc.foundContinue = b'.sc.foundContinue
+  mt : c.sc.mayThrow = b'.sc.mayThrow
   endSome : ∃ e, c.sc.end_ = some e
   forcedSound : isForcedEnd c.sc.end_ = true → (live && loopN) = false
   atExtra : ∀ q ∈ extra, q ≠ bp → stopsEnd (c.info.endAt q) = true → b'.info.endAt q = none → (live && loopN) = false
@@ -16,9 +17,13 @@ structure TailOK (live loopN : Bool) (bp : Nat) (extra : List Nat) (b' c : A) : 
 structure LoopCore (live loopN : Bool) (p bp : Nat) (body : Stmt) (extra : List Nat) (a1 r c : A) : Prop where
   fbk : r.sc.foundBreak = a1.sc.foundBreak
   fc : a1.sc.foundContinue = true → r.sc.foundContinue = true
+  fcBody : (live && (body.compl []).hasCl) = true → r.sc.foundContinue = true
+  mt : a1.sc.mayThrow = true → r.sc.mayThrow = true
+  tBody : (live && (body.compl []).t) = true → r.sc.mayThrow = true
   stop : stopsEnd r.sc.end_ = true → (live && loopN) = false
   endEq : r.sc.end_ = a1.sc.end_ ∨ isForcedEnd r.sc.end_ = true
-  p3 : ∀ q ∈ body.positions, r.info.ur q = true → (live && body.reach q) = false
+  p3 : ∀ q ∈ body.upos, r.info.ur q = true → (live && body.reach q) = false
+  p3i : ∀ q ∈ body.upos, r.info.ur q = true → body.inner q = false
   urp : r.info.ur p = a1.info.ur p
   frame : ∀ q, q ∉ p :: body.positions → q ∉ extra → r.info q = a1.info q
   atP : p ∉ extra → r.info.endAt p = a1.info.endAt p
@@ -29,12 +34,12 @@ theorem loopCore (live loopN : Bool) (p bp : Nat) (body : Stmt) (extra : List Na
     (hbp : body.pos = bp)
     (hs : stopsEnd a1.sc.end_ = true → live = false)
     (hfresh : ∀ q ∈ body.positions, a1.info.endAt q = none)
-    (hnd : (p :: body.positions).Nodup)
-    (ih : ∀ a0, Pre live body.positions a0 → PostS live body a0 (visitStmt body a0))
-    (htail : ∀ b', PostS live body (childA .loop a1) b' → TailOK live loopN bp extra b' (tail b')) :
+    (hpb : p ∉ body.positions) (hndb : body.positions.Nodup)
+    (ih : ∀ a0, Pre live body.positions a0 → PostS live [] body a0 (visitStmt body a0))
+    (htail : ∀ b', PostS live [] body (childA .loop a1) b' → TailOK live loopN bp extra b' (tail b')) :
     LoopCore live loopN p bp body extra a1 (withChild .loop bp (fun x => tail (visitStmt body x)) a1)
       (tail (visitStmt body (childA .loop a1))) := by
-  have hnd' := List.nodup_cons.mp hnd
+  have hnd' : p ∉ body.positions ∧ body.positions.Nodup := ⟨hpb, hndb⟩
   have hpre : Pre live body.positions (childA .loop a1) := childA_pre live .loop _ a1 hs hfresh hnd'.2
   have hb := ih _ hpre
   have ht := htail _ hb
@@ -49,6 +54,7 @@ theorem loopCore (live loopN : Bool) (p bp : Nat) (body : Stmt) (extra : List Na
   have he1' : a1'.sc.end_ = a1.sc.end_ := by rw [← ha1']; rfl
   have hfb1' : a1'.sc.foundBreak = a1.sc.foundBreak := by rw [← ha1']; rfl
   have hfc1' : a1'.sc.foundContinue = (a1.sc.foundContinue || c.sc.foundContinue) := by rw [← ha1']; rfl
+  have hmt1' : a1'.sc.mayThrow = (a1.sc.mayThrow || c.sc.mayThrow) := by rw [← ha1']; rfl
   -- the two shapes of the exit
   have hexit : ∃ e, c.sc.end_ = some e ∧
       childExit .loop bp a1.sc.end_ a1' c.sc.end_ =
@@ -60,9 +66,12 @@ theorem loopCore (live loopN : Bool) (p bp : Nat) (body : Stmt) (extra : List Na
   obtain ⟨e, hce, hex⟩ := hexit
   rw [hex]
   have hbp' : b'.info.endAt p = a1.info.endAt p := endAt_eq_of_info_eq (hb.frame p hnd'.1)
-  refine ⟨?_, ?_, ?_, ?_, ?_, ?_, ?_, ?_, ?_, ?_⟩
+  refine ⟨?_, ?_, ?_, ?_, ?_, ?_, ?_, ?_, ?_, ?_, ?_, ?_, ?_, ?_⟩
   · simp [hfb1']
   · intro h; simp [hfc1', h]
+  · intro h; simp [hfc1', ht.fc, hb.p2l h]
+  · intro h; simp [hmt1', h]
+  · intro h; simp [hmt1', ht.mt, hb.pT h]
   · intro hst
     simp only [setEnd_end] at hst
     by_cases hf : e.isForced = true
@@ -77,6 +86,10 @@ theorem loopCore (live loopN : Bool) (p bp : Nat) (body : Stmt) (extra : List Na
     simp only [setEnd_info, markAsEnd_ur] at hu
     rw [hi1', ht.ur] at hu
     exact hb.p3 q hq hu
+  · intro q hq hu
+    simp only [setEnd_info, markAsEnd_ur] at hu
+    rw [hi1', ht.ur] at hu
+    exact hb.p3i q hq hu
   · simp only [setEnd_info, markAsEnd_ur]
     rw [hi1', ht.ur, ur_eq_of_info_eq (hb.frame p hnd'.1)]
     rfl
@@ -104,19 +117,25 @@ end DL.CF
 
 namespace DL.CF
 
-theorem not_break_dead {live : Bool} {body : Stmt} {x b' : A} (hb : PostS live body x b')
+theorem not_break_dead {live : Bool} {body : Stmt} {x b' : A} (hb : PostS live [] body x b')
     (h : (b'.sc.foundBreak == some none) = false) : (live && (body.compl []).b) = false := by
   cases hh : (live && (body.compl []).b) with
   | false => rfl
   | true => rw [hb.p2 hh] at h; simp at h
 
-theorem not_continue_dead {live : Bool} {body : Stmt} {x b' : A} (hb : PostS live body x b')
+theorem not_continue_dead {live : Bool} {body : Stmt} {x b' : A} (hb : PostS live [] body x b')
     (h : b'.sc.foundContinue = false) : (live && (body.compl []).c) = false := by
   cases hh : (live && (body.compl []).c) with
   | false => rfl
   | true => rw [hb.p2c hh] at h; cases h
 
-theorem whileTail_ok (live tt : Bool) (body : Stmt) (x b' : A) (hb : PostS live body x b') :
+theorem not_cl_dead {live : Bool} {body : Stmt} {x b' : A} (hb : PostS live [] body x b')
+    (h : b'.sc.foundContinue = false) : (live && (body.compl []).hasCl) = false := by
+  cases hh : (live && (body.compl []).hasCl) with
+  | false => rfl
+  | true => rw [hb.p2l hh] at h; cases h
+
+theorem whileTail_ok (live tt : Bool) (body : Stmt) (x b' : A) (hb : PostS live [] body x b') :
     TailOK live (!tt || (body.compl []).b) body.pos [] b' (whileTail tt body.isDeclOrExpr body.pos b') := by
   unfold whileTail
   simp only
@@ -127,7 +146,7 @@ theorem whileTail_ok (live tt : Bool) (body : Stmt) (x b' : A) (hb : PostS live 
     rcases her : er with _ | e
     · rw [her] at h1; simp at h1
     · simp only
-      refine ⟨fun q hq _ => markAsEnd_info_other _ _ _ _ hq, fun q => by simp, by simp, by simp, ⟨e, rfl⟩, ?_, by simp⟩
+      refine ⟨fun q hq _ => markAsEnd_info_other _ _ _ _ hq, fun q => by simp, by simp, by simp, by simp, ⟨e, rfl⟩, ?_, by simp⟩
       intro _
       have := not_break_dead hb h1.2
       rw [h1.1.1]; simpa using this
@@ -135,60 +154,11 @@ theorem whileTail_ok (live tt : Bool) (body : Stmt) (x b' : A) (hb : PostS live 
     by_cases h2 : (tt && !(b'.sc.foundBreak == some none)) = true
     · simp only [h2, if_true]
       simp only [Bool.and_eq_true, Bool.not_eq_true'] at h2
-      refine ⟨fun q hq _ => markAsEnd_info_other _ _ _ _ hq, fun q => by simp, by simp, by simp, ⟨_, rfl⟩, ?_, by simp⟩
+      refine ⟨fun q hq _ => markAsEnd_info_other _ _ _ _ hq, fun q => by simp, by simp, by simp, by simp, ⟨_, rfl⟩, ?_, by simp⟩
       intro _
       have := not_break_dead hb h2.2
       rw [h2.1]; simpa using this
     · simp only [h2, Bool.false_eq_true, if_false]
-      exact ⟨fun q hq _ => markAsEnd_info_other _ _ _ _ hq, fun q => by simp, by simp, by simp, ⟨_, rfl⟩, by simp, by simp⟩
-
-theorem while_n (p : Nat) (test : Kids) (tt : Bool) (body : Stmt) :
-    (Stmt.compl [] (.whileS p test tt body)).n = (!tt || (body.compl []).b) ∧
-    (Stmt.compl [] (.whileS p test tt body)).b = false ∧ (Stmt.compl [] (.whileS p test tt body)).c = false := by
-  simp [Stmt.compl]
-
-theorem while_ok (live : Bool) (p : Nat) (test : Kids) (tt : Bool) (body : Stmt) (a : A) (ht : test.flat = true)
-    (hpre : Pre live (p :: body.positions) a)
-    (ih : ∀ a0, Pre live body.positions a0 → PostS live body a0 (visitStmt body a0)) :
-    PostS live (.whileS p test tt body) a (visitStmt (.whileS p test tt body) a) := by
-  have hnd := List.nodup_cons.mp hpre.nodup
-  have hv : visitStmt (.whileS p test tt body) a =
-      visitKids test (withChild .loop body.pos (fun x => whileTail tt body.isDeclOrExpr body.pos (visitStmt body x)) (flagA a p .other)) := by
-    simp [visitStmt, flagA]
-  rw [hv]
-  have hc := loopCore live (!tt || (body.compl []).b) p body.pos body [] (whileTail tt body.isDeclOrExpr body.pos) (flagA a p .other) rfl
-    hpre.hs (fun q hq => by rw [flagA_endAt]; exact hpre.fresh q (List.mem_cons_of_mem _ hq)) hpre.nodup ih
-    (fun b' hb => whileTail_ok live tt body _ b' hb)
-  generalize withChild .loop body.pos (fun x => whileTail tt body.isDeclOrExpr body.pos (visitStmt body x)) (flagA a p .other) = r at hc
-  have hs := visitKids_flat test r ht
-  generalize visitKids test r = fin at hs
-  obtain ⟨hn, hb0, hc0⟩ := while_n p test tt body
-  refine ⟨⟨?_, ?_, ?_, ?_, ?_, ?_, ?_, ?_⟩, ?_⟩
-  · intro hst; rw [hs.end_] at hst; rw [hn]; exact hc.stop hst
-  · simp [hb0]
-  · simp [hc0]
-  · intro hh; rw [hs.fb, hc.fbk]; exact hh
-  · intro hh; rw [hs.fc]; exact hc.fc hh
-  · unfold FB; rw [hs.fb, hc.fbk]; exact hpre.fb
-  · intro q hq hu
-    rw [hs.info] at hu
-    simp only [Stmt.positions] at hq
-    rcases List.mem_cons.mp hq with rfl | hqb
-    · rw [hc.urp] at hu
-      have := own_pos_dead hpre q .other _ rfl hu
-      simp [this]
-    · have hne : q ≠ p := fun e => hnd.1 (e ▸ hqb)
-      have := hc.p3 q hqb hu
-      simp only [Stmt.reach]
-      revert this; cases live <;> simp [hne]
-  · intro q hq
-    simp only [Stmt.positions] at hq
-    rw [hs.info, hc.frame q hq (by simp)]
-    have : q ≠ p := by intro e; exact hq (by simp [e])
-    exact flagA_other a p .other q this
-  · intro hst
-    simp only [Stmt.pos] at hst
-    rw [endAt_eq_of_info_eq (congrFun hs.info p), hc.atP (by simp), flagA_endAt, hpre.fresh p (by simp)] at hst
-    simp at hst
+      exact ⟨fun q hq _ => markAsEnd_info_other _ _ _ _ hq, fun q => by simp, by simp, by simp, by simp, ⟨_, rfl⟩, by simp, by simp⟩
 
 end DL.CF
